@@ -157,3 +157,17 @@ package eni
 //@   requires l != nil && l.factory != nil && l.ipv4 != nil && l.ipv6 != nil
 //@   requires forall i int :: 0 <= i && i < len(podResources) ==> podResources[i].PodInfo != nil
 //@   panics
+
+//@ for C12
+
+//@ # ---- PodENI (remote) results: every configuration is complete, and an address never comes without its subnet and gateway ----
+//@ pure func confComplete(c *rpc.NetConf) bool = c != nil && c.BasicInfo != nil && c.ENIInfo != nil && c.BasicInfo.PodIP != nil && c.BasicInfo.PodCIDR != nil && c.BasicInfo.GatewayIP != nil && (c.BasicInfo.PodIP.IPv4 != "" ==> c.BasicInfo.PodCIDR.IPv4 != "" && c.BasicInfo.GatewayIP.IPv4 != "") && (c.BasicInfo.PodIP.IPv6 != "" ==> c.BasicInfo.PodCIDR.IPv6 != "" && c.BasicInfo.GatewayIP.IPv6 != "")
+//@ func RemoteIPResource.ToRPC
+//@   requires l != nil && l.podENI != nil
+//@   ensures forall i int :: 0 <= i && i < len(result) ==> confComplete(result[i])
+//@   ensures forall i int, j int :: 0 <= i && i < j && j < len(result) ==> result[i] != result[j]
+//@   ensures result != nil ==> len(result) == len(l.podENI.Spec.Allocations)
+//@   loop 1 invariant len(netConf) == rangeindex + 1
+//@   loop 1 invariant forall i int :: 0 <= i && i < len(netConf) ==> confComplete(netConf[i])
+//@   loop 1 invariant forall i int, j int :: 0 <= i && i < j && j < len(netConf) ==> netConf[i] != netConf[j]
+//@   loop 1 invariant forall i int :: 0 <= i && i < len(netConf) ==> allocated(netConf[i]) && allocated(netConf[i].BasicInfo) && allocated(netConf[i].ENIInfo) && allocated(netConf[i].BasicInfo.PodIP) && allocated(netConf[i].BasicInfo.PodCIDR) && allocated(netConf[i].BasicInfo.GatewayIP)
